@@ -2692,7 +2692,10 @@ def fixup_dilation_gt2(op: Operation, arch, nng) -> Operation:
             new_kernel_w = (kernel_w - 1) * scale_dilation_w + 1
 
             new_kernel_shape = [new_kernel_h, new_kernel_w, kernel_ic, kernel_oc]
-            new_kernel_values = np.zeros(new_kernel_shape, dtype=op.weights.values.dtype)
+            # the inserted taps must not contribute: they hold the weight zero point (0 for symmetric weights)
+            zero_point = op.weights.quantization.zero_point
+            fill_value = zero_point if np.isscalar(zero_point) else 0
+            new_kernel_values = np.full(new_kernel_shape, fill_value, dtype=op.weights.values.dtype)
 
             # copy the original kernel values into the new sparse kernel
             for h in range(0, kernel_h):
@@ -2704,6 +2707,11 @@ def fixup_dilation_gt2(op: Operation, arch, nng) -> Operation:
             # update the weight tensor with the new dilated kernel
             op.weights.shape = new_kernel_shape
             op.weights.values = new_kernel_values
+            # The values differ from those of the other copies of the same file tensor (the reader gives every operator
+            # its own clone that keeps the value_id): without a new value_id the compressed-weight cache would hand one
+            # operator the encoded weights of the other. The new id is derived from the old one and the software
+            # dilation, so copies that are dilated in the same way still share one encoding.
+            op.weights.value_id = uuid.uuid5(op.weights.value_id, f"dilated_{scale_dilation_h}x{scale_dilation_w}")
 
             # enable(=2) / disable(=1) hardware dilation
             op.attrs["dilation"] = (1, hw_dilation_h, hw_dilation_w, 1)  # nhwc format
